@@ -391,6 +391,19 @@ func (c *core) fastForward(block *hg.Block, frame *hg.Frame) error {
 		return fmt.Errorf("Invalid Frame Hash")
 	}
 
+	// Only record the signatures that were verified: the Block is stored, and
+	// later served to other nodes, with its signatures.
+	verified := make(map[string]string)
+	for _, s := range block.GetSignatures() {
+		if _, ok := peerSet.ByPubKey[s.ValidatorHex()]; !ok {
+			continue
+		}
+		if ok, _ := block.Verify(s); ok {
+			verified[s.ValidatorHex()] = s.Signature
+		}
+	}
+	block.Signatures = verified
+
 	err = c.hg.Reset(block, frame)
 	if err != nil {
 		return err
